@@ -40,8 +40,11 @@ RtKeys == { <<OctKey(32, "a", NONE, NONE), "HS256">>, <<OctKey(64, "a", "HS512",
             <<AsymKey("p521a", 1, NONE, NONE), "ES512">>, <<AsymKey("k256a", 1, NONE, NONE), "ES256K">>,
             <<AsymKey("ed25519a", 1, "EdDSA", NONE), NONE>>, <<AsymKey("ed448a", 1, NONE, NONE), "EdDSA">> }
 RoundTripCells ==
-  { [op |-> "ToolRoundTrip", key |-> ka[1], alg |-> ka[2], gopts |-> go, vopts |-> vo, json |-> j, noiat |-> n] :
+  { [op |-> "ToolRoundTrip", key |-> ka[1], alg |-> ka[2], gopts |-> go, vopts |-> vo, json |-> j, noiat |-> n, far |-> 0] :
       ka \in RtKeys, go \in {"short", "long"}, vo \in {"short", "long"}, j \in {0, 1}, n \in {0, 1} }
+  \* integer claims beyond 32 bits on the command line: an expiry in 2100, a not-before in 1840, 2^53 + 1
+  \cup { [op |-> "ToolRoundTrip", key |-> ka[1], alg |-> ka[2], gopts |-> go, vopts |-> "short", json |-> 0, noiat |-> n, far |-> 1] :
+      ka \in RtKeys, go \in {"short", "long"}, n \in {0, 1} }
 \* key2jwk names JOSE curves only (P-256/384/521, secp256k1): other curves are outside its documented scope
 ConvBases == { b \in DOMAIN AsymBase : AsymBase[b].kty # "EC" \/ AsymBase[b].crv \in {"P-256", "P-384", "P-521", "secp256k1"} }
 KeyConvCells ==
